@@ -43,6 +43,12 @@ pub fn evaluate_expression(expr: &str, facts: &Facts) -> Result<Value> {
         return apply_operator(&left_val, op, &right_val);
     }
 
+    // No top-level operator.  A fully parenthesised expression `( inner )` is its inner
+    // expression: `a * (b + c)` is cut at `*` above, the operand `(b + c)` arrives here.
+    if let Some(inner) = strip_outer_parens(expr) {
+        return evaluate_expression(inner, facts);
+    }
+
     // No operator found - must be a single value
     // Could be: string literal, field reference (Order.quantity), number (100), or variable
 
@@ -100,6 +106,31 @@ fn find_operator(expr: &str, operators: &[char]) -> Option<usize> {
     }
 
     last_pos
+}
+
+/// `( inner )` where the first `(` is closed by the last `)`: Some(inner).
+/// `(a)(b)`, `(a) + (b)`, an unbalanced `(a` and text without outer parentheses: None.
+fn strip_outer_parens(expr: &str) -> Option<&str> {
+    if !(expr.starts_with('(') && expr.ends_with(')')) {
+        return None;
+    }
+    let mut paren_depth = 0;
+    for (i, ch) in expr.char_indices() {
+        match ch {
+            '(' => paren_depth += 1,
+            ')' => paren_depth -= 1,
+            _ => {}
+        }
+        if paren_depth == 0 {
+            // The first `(` is closed here: by the last character, or earlier
+            return if i + 1 == expr.len() {
+                Some(&expr[1..expr.len() - 1])
+            } else {
+                None
+            };
+        }
+    }
+    None
 }
 
 /// Apply arithmetic operator to two values
